@@ -7,6 +7,7 @@ package main
 import (
 	"fmt"
 	"os"
+	"reflect"
 	"strings"
 
 	api "k8s.io/api/core/v1"
@@ -49,13 +50,14 @@ func renderedWeights(p *pipeline.Pipeline, backendPrefix string) (map[string]int
 // that reference them, an ingress with the blue/green annotations (with or without a
 // header selector, which labels the servers). It returns the rendered weight per endpoint.
 func runBGRendered(dir string, in bgInput, selector bool) ([]int, bool) {
+	out, _, ok := runBGRenderedHist(dir, in, nil, selector)
+	return out, ok
+}
+
+// bgObjects builds the cluster of a blue/green input: service, pods with labels, endpoints
+// that reference them, the ingress with the blue/green annotations, drain-support on.
+func bgObjects(p *pipeline.Pipeline, in bgInput, selector bool) []client.Object {
 	in.deriveGroups()
-	os.RemoveAll(dir)
-	p, err := pipeline.NewE(pipeline.Options{Dir: dir, WatchWithoutClass: true})
-	if err != nil {
-		panic(err)
-	}
-	defer p.Close()
 	var objs []client.Object
 	objs = append(objs, world.Service("ns1", "app", world.SvcPort{Name: "http", Port: 8080, TargetPort: intstr.FromInt(8080)}))
 	ep := &api.Endpoints{ObjectMeta: metav1.ObjectMeta{Namespace: "ns1", Name: "app"}}
@@ -115,13 +117,10 @@ func runBGRendered(dir string, in bgInput, selector bool) ([]int, bool) {
 			HTTP: &networking.HTTPIngressRuleValue{Paths: []networking.HTTPIngressPath{{Path: "/", PathType: &pt,
 				Backend: networking.IngressBackend{Service: &networking.IngressServiceBackend{Name: "app", Port: networking.ServiceBackendPort{Number: 8080}}}}}}}}}}}
 	objs = append(objs, ing)
-	var batch []pipeline.Change
-	for _, o := range objs {
-		batch = append(batch, pipeline.Change{Op: pipeline.Create, Obj: o})
-	}
-	if err := p.Apply(batch); err != nil {
-		panic(err)
-	}
+	return objs
+}
+
+func bgReadWeights(p *pipeline.Pipeline, in bgInput) ([]int, bool) {
 	ws, found := renderedWeights(p, "ns1_app_")
 	if !found {
 		return nil, false
@@ -135,4 +134,50 @@ func runBGRendered(dir string, in bgInput, selector bool) ([]int, bool) {
 		out[i] = w
 	}
 	return out, true
+}
+
+// runBGRenderedHist renders `in`, then (when next != nil) delivers, as ONE incremental
+// batch, the objects of `next` that differ (same endpoint addresses: only weights, labels,
+// readiness or the annotation change), and reads the rendered weights after each step.
+func runBGRenderedHist(dir string, in bgInput, next *bgInput, selector bool) ([]int, []int, bool) {
+	os.RemoveAll(dir)
+	p, err := pipeline.NewE(pipeline.Options{Dir: dir, WatchWithoutClass: true})
+	if err != nil {
+		panic(err)
+	}
+	defer p.Close()
+	objs := bgObjects(p, in, selector)
+	var batch []pipeline.Change
+	for _, o := range objs {
+		batch = append(batch, pipeline.Change{Op: pipeline.Create, Obj: o})
+	}
+	if err := p.Apply(batch); err != nil {
+		panic(err)
+	}
+	out1, ok := bgReadWeights(p, in)
+	if !ok || next == nil {
+		return out1, nil, ok
+	}
+	old := map[string]client.Object{}
+	for _, o := range objs {
+		old[world.Key(o)] = o
+	}
+	var upd []pipeline.Change
+	for _, o := range bgObjects(p, *next, selector) {
+		prev, had := old[world.Key(o)]
+		switch {
+		case !had:
+			upd = append(upd, pipeline.Change{Op: pipeline.Create, Obj: o})
+		case !reflect.DeepEqual(prev, o):
+			upd = append(upd, pipeline.Change{Op: pipeline.Update, Obj: o})
+		}
+	}
+	if len(upd) == 0 {
+		return out1, nil, true
+	}
+	if err := p.Apply(upd); err != nil {
+		panic(err)
+	}
+	out2, ok := bgReadWeights(p, *next)
+	return out1, out2, ok
 }
